@@ -96,16 +96,16 @@ class Variant:
         self.bin = os.path.join(self.dir, "runner")
         return True
 
-    def run(self, inputs, options, plan, timeout_ms=5000, debug_out=None, mem_mb=2048):
+    def run(self, inputs, options, plan, timeout_ms=5000, debug_out=None, mem_mb=2048, conc=0, rounds=1, obs_name="obs.ndjson"):
         """plan: list of [group index in self.groups, input index, option index]; returns observations"""
-        req = dict(groups=[dict(gi=g.gi, entry=g.sname(),
+        req = dict(groups=[dict(gi=g.gi, entry=g.sname(), rules=[g.rname(i + 1) for i in range(len(g.rules))],
                                 blocks={str(n["blk"]): dict(k=n["k"], op=n["op"], key=n["key"], arg=n["arg"], g=n["g"], err=n["err"])
                                         for n in g.nodes if n["blk"]}) for g in self.groups],
-                   inputs=inputs, options=options, plan=plan, timeout_ms=timeout_ms, mem_mb=mem_mb, variant=self.vi)
-        rq = os.path.join(self.dir, "req.json")
+                   inputs=inputs, options=options, plan=plan, timeout_ms=timeout_ms, mem_mb=mem_mb, variant=self.vi, conc=conc, rounds=rounds)
+        rq = os.path.join(self.dir, "req%s.json" % ("" if obs_name == "obs.ndjson" else "_" + obs_name))
         with open(rq, "w") as f:
             json.dump(req, f)
-        ob = os.path.join(self.dir, "obs.ndjson")
+        ob = os.path.join(self.dir, obs_name)
         if os.path.exists(ob):
             os.remove(ob)
         open(ob, "w").close()
@@ -115,11 +115,15 @@ class Variant:
         while skip < len(plan):
             p = subprocess.run([self.bin, rq, ob, str(skip)], stdout=dbg, stderr=subprocess.PIPE, env=ENV)
             done = sum(1 for _ in open(ob))
+            self.last_stderr = p.stderr.decode(errors="replace")
             if p.returncode == 0:
                 if done != len(plan):
                     raise Inconclusive("runner produced %d of %d observations" % (done, len(plan)))
                 break
             restarts += 1
+            if conc:
+                self.conc_failure = (p.returncode, p.stderr.decode(errors="replace")[-3000:])
+                return ob
             if restarts > 200:
                 raise Inconclusive("runner restarted too often: " + p.stderr.decode(errors="replace")[-500:])
             err = p.stderr.decode(errors="replace")
@@ -132,7 +136,7 @@ class Variant:
             pl = plan[done]
             g = self.groups[pl[0]]
             o = dict(k=done + 1, vi=self.vi, gi=g.gi, ii=pl[1] + 1, oi=pl[2] + 1, status=status, ok=False, end=0, val=[],
-                     store=[], g=0, events=[], errs=[], nomatch={"is": False, "pos": [], "exp": []}, budget=False, exprcnt=-1,
+                     nval=[], store=[], g=0, events=[], errs=[], nomatch={"is": False, "pos": [], "exp": []}, budget=False, exprcnt=-1,
                      escaped="", typed=True, innerok=True, prefixok=True, sorted=True, nilval=True,
                      detail=err[-400:] if status == "crash" else "")
             with open(ob, "a") as f:
